@@ -60,7 +60,7 @@ ORACLES = {
         'emit::try_emit_static_str_add': ['incan::emit_promotion'],
         'lowering::lower_statement(CompoundAssignment)': ['incan::emit_promotion', 'incan::compound_assign'],
         'lowering::lower_expr(Binary)': ['incan::emit_promotion', 'incan::static_type'],
-        'checker::types_compatible(int/float)': ['incan::static_type'], 'checker::check_return': ['incan::static_type'], 'checker::check_assignment': ['incan::static_type'],
+        'checker::types_compatible(int/float)': ['incan::static_type'], 'checker::check_return': ['incan::static_type'], 'checker::eval_const_expr(arithmetic)': ['incan::static_type'], 'checker::check_assignment': ['incan::static_type'],
         '*': ['core::policy', 'incan::exponent_kind', 'incan::binop_plan', 'incan::static_type', 'incan::emit_promotion', 'incan::static_type_nested', 'incan::compound_assign'],
     },
     'C19': {
